@@ -13,8 +13,6 @@ NOT_YET_PROVED = [
     "C08 full functional theorem: the k-th answer equals credb/skepb on the specification store and the certificate satisfies the C04 statement, for every valid SAT answer script (needs the clause-set invariant: current assumptions + clause set == encoding of the current framework, dead variables independent)",
     "C09: every later answer is that of the framework without the rejected / redundant operations (same functional part); no later query aborts",
     "table invariant of the assumptions-on-attacks encoder (n_arg_vars, next_dummy_arg_var, need_to_encode)",
-    "split_in_extension covers every live id on the dynamic framework (what D9 violated): covered by the replay tie and the oracle only",
-    "variables are positive (solver_vars[0] stays Ignored): not part of tables_ok",
 ]
 
 
